@@ -100,7 +100,7 @@ type Fn struct {
 // goroutines that exist once per object; the pseudo-lock is only credited to locations of that object's struct
 var singleInstance = map[string]string{
 	"(*client).Dial -> keepalive":         "client: Dial is called once per client (documented: New, register handlers, Dial)",
-	"(*client).recoverLoss -> lit":        "client: single-flight - doReconnectting is tested and set under the client lock before the goroutine starts and cleared only after it has ended (waitCh), so successive recovery goroutines are ordered through that lock",
+	"(*client).recoverLossIf -> lit":      "client: single-flight - doReconnectting is tested and set under the client lock before the goroutine starts and cleared only after it has ended (waitCh), so successive recovery goroutines are ordered through that lock",
 	"(*tcpConn).communicating -> reading": "tcpConn: communicating() is called once, by the dialer that created the connection",
 	"(*tcpConn).communicating -> writing": "tcpConn: as above",
 	"(*tcpConn).OnPacket -> lit":          "tcpConn: started inside onPacketOnce.Do",
@@ -167,6 +167,9 @@ func main() {
 	pkg, err := conf.Check(pname, fset, files, info)
 	if err != nil {
 		fatal(err)
+	}
+	if len(os.Args) > 4 {
+		writeChans(os.Args[4], chanOps(fset, files, info))
 	}
 	a := &analyzer{fset: fset, info: info, pkg: pkg, fns: map[types.Object]*Fn{}, lits: map[*ast.FuncLit]*Fn{}, structs: map[string]bool{}}
 	for _, n := range pkg.Scope().Names() {
@@ -1064,4 +1067,176 @@ func sep(i, n int) string {
 		return ""
 	}
 	return ";"
+}
+
+// ---------------------------------------------------------------- channel operations (Gen/Chans.v)
+// Every send and receive of the package with the form it is written in: a plain (blocking) operation, a case of a
+// select that has a default clause (never blocks), or a case of a select without default (blocks until one of the
+// listed alternatives is ready). The models take "Write never blocks", "the reader never blocks on a full queue",
+// "an idle dispatcher / writer wakes up when the connection closes" from here.
+type ChanOp struct {
+	Func string
+	Chan string
+	Send bool
+	Form string   // CFPlain | CFSelectDefault | CFSelectOthers
+	Alts []string // the other communications of the same select
+	Pos  string
+}
+
+func chanName(info *types.Info, e ast.Expr) string {
+	switch x := e.(type) {
+	case *ast.SelectorExpr:
+		if sel, ok := info.Selections[x]; ok {
+			t := sel.Recv()
+			if p, ok := t.(*types.Pointer); ok {
+				t = p.Elem()
+			}
+			if n, ok := t.(*types.Named); ok {
+				return n.Obj().Name() + "." + x.Sel.Name
+			}
+		}
+		return types.ExprString(e)
+	case *ast.CallExpr:
+		return types.ExprString(x.Fun) + "()"
+	case *ast.ParenExpr:
+		return chanName(info, x.X)
+	}
+	return types.ExprString(e)
+}
+
+// commOf returns (channel, isSend, ok) of a statement that is a channel communication.
+func commOf(info *types.Info, st ast.Stmt) (string, bool, bool) {
+	switch x := st.(type) {
+	case *ast.SendStmt:
+		return chanName(info, x.Chan), true, true
+	case *ast.ExprStmt:
+		if u, ok := x.X.(*ast.UnaryExpr); ok && u.Op == token.ARROW {
+			return chanName(info, u.X), false, true
+		}
+	case *ast.AssignStmt:
+		if len(x.Rhs) == 1 {
+			if u, ok := x.Rhs[0].(*ast.UnaryExpr); ok && u.Op == token.ARROW {
+				return chanName(info, u.X), false, true
+			}
+		}
+	}
+	return "", false, false
+}
+
+func chanOps(fset *token.FileSet, files []*ast.File, info *types.Info) []ChanOp {
+	var ops []ChanOp
+	for _, f := range files {
+		for _, d := range f.Decls {
+			fd, ok := d.(*ast.FuncDecl)
+			if !ok || fd.Body == nil {
+				continue
+			}
+			fname := fd.Name.Name
+			if fd.Recv != nil && len(fd.Recv.List) == 1 {
+				fname = "(" + recvName(fd.Recv.List[0].Type) + ")." + fd.Name.Name
+			}
+			inSelect := map[ast.Stmt]bool{}
+			ast.Inspect(fd.Body, func(n ast.Node) bool {
+				sel, ok := n.(*ast.SelectStmt)
+				if !ok {
+					return true
+				}
+				hasDefault := false
+				var comms []ast.Stmt
+				for _, c := range sel.Body.List {
+					cc := c.(*ast.CommClause)
+					if cc.Comm == nil {
+						hasDefault = true
+					} else {
+						comms = append(comms, cc.Comm)
+						inSelect[cc.Comm] = true
+					}
+				}
+				for i, c := range comms {
+					ch, send, ok := commOf(info, c)
+					if !ok {
+						continue
+					}
+					var alts []string
+					for j, o := range comms {
+						if j != i {
+							if och, _, ok := commOf(info, o); ok {
+								alts = append(alts, och)
+							}
+						}
+					}
+					form := "CFSelectOthers"
+					if hasDefault {
+						form = "CFSelectDefault"
+					}
+					p := fset.Position(c.Pos())
+					ops = append(ops, ChanOp{fname, ch, send, form, alts, fmt.Sprintf("%s:%d", filepath.Base(p.Filename), p.Line)})
+				}
+				return true
+			})
+			// everything else: a send statement or a receive expression anywhere (statement, assignment, call argument, ...)
+			inComm := map[ast.Node]bool{}
+			for st := range inSelect {
+				inComm[st] = true
+				switch x := st.(type) {
+				case *ast.ExprStmt:
+					inComm[x.X] = true
+				case *ast.AssignStmt:
+					if len(x.Rhs) == 1 {
+						inComm[x.Rhs[0]] = true
+					}
+				}
+			}
+			ast.Inspect(fd.Body, func(n ast.Node) bool {
+				if n == nil || inComm[n] {
+					return true
+				}
+				switch x := n.(type) {
+				case *ast.SendStmt:
+					p := fset.Position(x.Pos())
+					ops = append(ops, ChanOp{fname, chanName(info, x.Chan), true, "CFPlain", nil, fmt.Sprintf("%s:%d", filepath.Base(p.Filename), p.Line)})
+				case *ast.UnaryExpr:
+					if x.Op == token.ARROW {
+						p := fset.Position(x.Pos())
+						ops = append(ops, ChanOp{fname, chanName(info, x.X), false, "CFPlain", nil, fmt.Sprintf("%s:%d", filepath.Base(p.Filename), p.Line)})
+					}
+				case *ast.RangeStmt:
+					if t, ok := info.Types[x.X]; ok {
+						if _, isChan := t.Type.Underlying().(*types.Chan); isChan {
+							p := fset.Position(x.Pos())
+							ops = append(ops, ChanOp{fname, chanName(info, x.X), false, "CFPlain", nil, fmt.Sprintf("%s:%d", filepath.Base(p.Filename), p.Line)})
+						}
+					}
+				}
+				return true
+			})
+		}
+	}
+	sort.SliceStable(ops, func(i, j int) bool {
+		if ops[i].Func != ops[j].Func {
+			return ops[i].Func < ops[j].Func
+		}
+		return ops[i].Pos < ops[j].Pos
+	})
+	return ops
+}
+
+func writeChans(path string, ops []ChanOp) {
+	var b strings.Builder
+	b.WriteString("(* GENERATED by harness/cmd/vaccess from /repo/go/client - do not edit. *)\nFrom Coq Require Import List String Bool.\nFrom OAP Require Import Model.ChanForms.\nImport ListNotations.\nLocal Open Scope string_scope.\n\n")
+	b.WriteString("Definition chan_ops : list chanop := [\n")
+	for i, o := range ops {
+		var alts []string
+		for _, a := range o.Alts {
+			alts = append(alts, fmt.Sprintf("%q", a))
+		}
+		fmt.Fprintf(&b, "  mkChanOp %q %q %v %s [%s]%s   (* %s *)\n", o.Func, o.Chan, o.Send, o.Form, strings.Join(alts, "; "), sep(i, len(ops)), o.Pos)
+	}
+	b.WriteString("].\n")
+	old, _ := os.ReadFile(path)
+	if string(old) != b.String() {
+		if err := os.WriteFile(path, []byte(b.String()), 0o644); err != nil {
+			fatal(err)
+		}
+	}
 }
